@@ -262,8 +262,13 @@ func (bn *baseNode) setModTime(mtime time.Time, u avfs.UserReader) bool {
 
 // setOwner sets the owner of the node.
 func (bn *baseNode) setOwner(uid, gid int) {
-	bn.uid = uid
-	bn.gid = gid
+	if uid != -1 {
+		bn.uid = uid
+	}
+
+	if gid != -1 {
+		bn.gid = gid
+	}
 }
 
 // Unlock unlocks the node.
